@@ -32,8 +32,8 @@ func (*c12) ID() string { return "C12" }
 func (*c12) Rule() string {
 	return "programs from the core grammar both shells share (simple commands with assignments and redirections, ; & && || | and ! lists, { } and ( ) groups, if/elif/else, while/until, for with and without 'in', case with every item ending and with a last item lacking ';;', functions with group and subshell bodies, here-documents, single and double quotes, $x ${x} $( ) and backquotes, comments, newlines against semicolons), and every program again after one token-level mutation (insert, delete, swap, duplicate over the alphabet ; & && || | ( ) { } ! if then elif else fi while until do done for in case esac ;; newline WORD 'q' \"q\" < > >> <<E). 30 per batch; nothing is executed: 'bash -n' and 'dash -n' read each program from a file. Oracle: syntax.Parser in Bash mode accepts exactly what bash -n accepts (exit status 0 and no non-warning line on stderr) and in POSIX mode exactly what dash -n accepts, apart from divergences the repository's own tests mark as intentional (error cases carrying flipConfirm for that variant, matched by our error message with quoted tokens abstracted). Non-trivial: the batch held at least one program each shell rejects and one it accepts; distinct: hash of the batch."
 }
-func (*c12) NumCases(tier string) int      { return tierN(tier, 80, 5000) }
-func (*c12) MinNontrivial(tier string) int { return tierN(tier, 50, 3500) }
+func (*c12) NumCases(tier string) int      { return tierN(tier, 80, 1600) }
+func (*c12) MinNontrivial(tier string) int { return tierN(tier, 50, 1100) }
 func (*c12) New() any                      { return &AcceptBatch{} }
 func (*c12) CaseTimeout() time.Duration    { return 300 * time.Second }
 func (*c12) Assumptions() []string {
@@ -462,7 +462,7 @@ func c12ShellClass(msg string) string {
 // knownClass maps a divergence to a listed known finding or to an out-of-domain
 // reason ("ood:..."), if any.
 func (p *c12) knownClass(variant, dir, cls, src string) string {
-	reserved := regexp.MustCompile(`^unexpected (in|else|elif|then|fi|do|done|esac)$`)
+	reserved := regexp.MustCompile(`^unexpected (in|else|elif|then|fi|do|done|esac|\})$`)
 	act := func(id string) string {
 		if p.env.Findings.Active(id) {
 			return id
@@ -506,6 +506,9 @@ func (p *c12) knownClass(variant, dir, cls, src string) string {
 			return act("C12-reserved-word-still-recognised-after-a-leading-redirection")
 		}
 	}
+	if variant == "bash" && cls == "X must be followed by a literal" && c12ForWordRe.MatchString(src) {
+		return act("C12-for-loop-variable-that-is-not-a-name")
+	}
 	switch {
 	case variant == "bash" && cls == "X cannot form a statement alone":
 		return "ood:bash-5.2-accepts-a-lone-bang(the repository targets 5.3)"
@@ -513,7 +516,8 @@ func (p *c12) knownClass(variant, dir, cls, src string) string {
 	return ""
 }
 
-var c12RedirThenReservedRe = regexp.MustCompile(`(<|>|>>|<<)[ ]*[^ \n;&|()]+[ ]+([^ \n;&|()]+[ ]+)*(\{|!|if|while|until|for|case|then|do|fi|done|esac|elif|else|\})([ \n;]|$)`)
+var c12RedirThenReservedRe = regexp.MustCompile(`(<|>|>>|<<)[ ]*[^ \n;|()]+[ ]+([^ \n;&|()]+[ ]+)*(\{|!|if|while|until|for|case|then|do|fi|done|esac|elif|else|\})([ \n;]|$)`)
+var c12ForWordRe = regexp.MustCompile("for[ ]+['\"$`]")
 var c12IONumRe = regexp.MustCompile(`(<|>|>>)[ ]+[0-9]+[<>]`)
 var c12FnBodyRe = regexp.MustCompile(`fn\(\)[ \n]*([^{( \n]|$)`)
 
